@@ -138,6 +138,20 @@ func recoverParams(c []P, vs []P) []float64 {
 			}
 		}
 		if !found {
+			// a vertex inside the last cell of the grid (a step that lands just before the end of the curve): the scan above
+			// sees the distance fall all the way to t = 1 and no interior minimum
+			lo, hi := grid[len(grid)-3], 1.0
+			for k := 0; k < 80; k++ {
+				m1, m2 := lo+(hi-lo)/3, hi-(hi-lo)/3
+				if f(m1) < f(m2) {
+					hi = m2
+				} else {
+					lo = m1
+				}
+			}
+			try(newton((lo + hi) / 2))
+		}
+		if !found {
 			try(1)
 		}
 		ts[i] = best
